@@ -1,22 +1,22 @@
 SPECIFICATION Spec
 CONSTANTS
-  WorkerCpus <- B_Workers
-  LateWorkers <- B_Late
-  WorkerGroup <- B_Groups
-  WorkerLife <- B_Life
+  WorkerCpus <- R_Workers
+  LateWorkers <- R_Late
+  WorkerGroup <- R_Groups
+  WorkerLife <- R_Life
   MaxTicks = 0
-  Menu <- B_Menu
-  OpenJobs <- B_Open
-  Classes <- B_Classes
-  MaxLosses = 1
-  MaxCancels = 0
-  MaxFails = 1
-  MaxLaunchFails = 1
+  Menu <- R_Menu
+  OpenJobs <- R_Open
+  Classes <- R_Classes
+  MaxLosses = 0
+  MaxCancels = 2
+  MaxFails = 0
+  MaxLaunchFails = 0
   PfReserve = 0
   PfMax = 1
   Eager = TRUE
   Journaling = FALSE
-  SlowStop = FALSE
+  SlowStop = TRUE
 CHECK_DEADLOCK FALSE
 INVARIANTS
   NoPanic
